@@ -394,3 +394,22 @@ pub fn vec_with_capacity_check_cut<T>(cap: usize) -> Vec<T> {
     kani::assume(false);
     Vec::new()
 }
+
+/// `str::chars().count()`: std counts word-at-a-time behind pointer-alignment arithmetic (like its
+/// UTF-8 validator), which CBMC cannot execute on a slice of symbolic length. Byte-wise model of
+/// the same function: the number of bytes that are not UTF-8 continuation bytes.
+pub fn chars_count_model<'a>(it: std::str::Chars<'a>) -> usize
+where
+    'a: 'a,
+{
+    let b = it.as_str().as_bytes();
+    let mut n = 0;
+    let mut i = 0;
+    while i < b.len() {
+        if b[i] & 0xC0 != 0x80 {
+            n += 1;
+        }
+        i += 1;
+    }
+    n
+}
